@@ -98,7 +98,7 @@ def file_spec(rec, inst):
     png = [None] * D if dt == 'I' else (['1.0', '1.0'] + ['2.0'] * len(fl) + [None])
     return dict(version='FCS3.0', datatype=dt, byteord='1,2,3,4' if dt == 'F' else '4,3,2,1',
                 widths=[16 if dt == 'I' else 32] * D, ranges=[int(rec.get('res', 1024))] * D, names=names, pne=pne, pnv=pnv, png=png,
-                events=ev, extra=[['$TIMESTEP', '0.1'], ['$BTIM', '12:00:00'], ['$ETIM', '12:05:00'], ['$DATE', '01-JAN-2020']])
+                events=ev, extra=[['$TIMESTEP', str(rec.get('timestep', '0.1'))], ['$BTIM', '12:00:00'], ['$ETIM', '12:05:00'], ['$DATE', '01-JAN-2020']])
 
 
 # ----------------------------------------------------------------------------------------------
@@ -200,7 +200,8 @@ def experiment(draw, max_inst=3, max_beads=2, max_samples=4, min_samples=1, with
         else:
             files[fname] = dict(kind='cells', instrument=inst['id'], seed=draw(st.integers(0, 2 ** 16)),
                                 n=draw(st.sampled_from([450, 600, 750, 900])), datatype=dt,
-                                res=draw(st.sampled_from([1024, 1024, 256, 4096])) if dt == 'I' else 1024)
+                                res=draw(st.sampled_from([1024, 1024, 256, 4096])) if dt == 'I' else 1024,
+                                timestep=draw(st.sampled_from(['0.1', '0.1', '0.025', '0'])))      # '0': a duration of 0 s
         mybeads = [b for b in beads if b['instrument'] == inst['id']]
         b = draw(st.sampled_from(mybeads)) if mybeads else None
         units = {}
